@@ -8,8 +8,8 @@ K_LEDGER = KaniUnit(
     name="k_ledger", harness_file="kani/harness_unix.rs", append_to="src/platform/unix/mod.rs",
     harnesses=["ledger_connect", "ledger_channel", "ledger_receiver_consume", "ledger_sender_clones",
                "ledger_opaque_channel", "ledger_shared_memory_drop", "ledger_shared_memory_clone"],
-    props=["C11", "C03", "C16", "C04"],
-    id_props=[("kani.ledger.sender_", ["C11", "C03"]), ("kani.ledger.opaque_", ["C11", "C16", "C03"]),
+    props=["C11", "C03", "C16", "C04", "C12"],
+    id_props=[("kani.ledger.sender_", ["C11", "C03"]), ("kani.ledger.opaque_", ["C11", "C16", "C03", "C12"]),
               ("kani.ledger.consume", ["C11", "C04"]), ("kani.ledger.moved_", ["C11", "C04"]), ("kani.ledger.consumed_", ["C11", "C04"]),
               ("kani.ledger.", ["C11"])],
     safety_props=["C11"],
